@@ -732,6 +732,18 @@ def op_attr_graph(w, a, b, c, d):
         n.attributes.add(ir.AttrInt64s("axes", [b % 3, c % 3]))
 
 
+def op_meta_mutate(w, a, b, c, d):
+    """In-place mutation of a mutable object stored in .meta (only meaningful against a deep copy)."""
+    pool = [x for x in list(w.values) + list(w.nodes) + list(w.graphs) if isinstance(x.meta.get("trace"), list)]
+    if not pool:
+        return None
+    x = pool[a % len(pool)]
+    if b % 3 == 0 and isinstance(x.meta.get("cfg"), dict):
+        x.meta["cfg"]["k"].append(c % 5)
+    else:
+        x.meta["trace"].append(c % 5)
+
+
 def op_rename_values(w, a, b, c, d):
     m = 1 + c % 3
     vs = [w.value(x) for x in digits(a, m)]
@@ -803,6 +815,7 @@ OPS = {
     "node_attrs": op_node_attrs,
     "rename_values": op_rename_values,
     "attr_graph": op_attr_graph,
+    "meta_mutate": op_meta_mutate,
 }
 CONSTRUCTORS = {"new_value", "new_node", "new_node_with_outputs", "new_node_subgraph", "new_graph", "new_function", "new_model"}
 # weights for random histories (edits dominate; construction keeps the registry growing slowly)
